@@ -22,6 +22,24 @@ TABLE = "chalk_engine::table::Table"
 
 
 def run(ck, facts, tier):
+    # ------------------------------------------------------------------ SUCCESS-MEANS-ANSWER
+    R = "C03.SUCCESS-MEANS-ANSWER"
+    ck.rule(R, "K3: SolveState::on_no_remaining_subgoals reports NoRemainingSubgoalsResult::Success - `go on with the caller's strand under "
+               "the same clock` - only behind the Some edge of pursue_answer (a *new* answer was tabled) and the Some edge of "
+               "pop_and_take_caller_strand (the caller's strand was put back); when pursue_answer declines (duplicate, floundered) the "
+               "quantum ends.  Going on without a new answer lets the no-eligible-strand cleanup discard live follow-up strands: later "
+               "answers are lost and `NoMoreSolutions` comes early")
+    nb = need_body(ck, facts, R, "chalk_engine::logic::SolveState::on_no_remaining_subgoals")
+    if nb:
+        from kit import guard_sites as _gs
+        from core import callee_matches as _cm
+        cfg = nb.cfg
+        succ = sorted({b for b, j, st in cfg.agg_sites("chalk_engine::logic::NoRemainingSubgoalsResult", "Success")})
+        e1 = cfg.variant_edges(lambda tr: tr.get("of", {}).get("kind") == "call" and _cm(tr["of"]["call"], "pursue_answer"), ["Some"])
+        e2 = cfg.variant_edges(lambda tr: tr.get("of", {}).get("kind") == "call" and _cm(tr["of"]["call"], "pop_and_take_caller_strand"), ["Some"])
+        ck.floor(R, "on_no_remaining_subgoals.Success-sites/Some-edges", min(len(succ), len(e1), len(e2)), 1)
+        _gs(ck, R, nb, succ, e1, "Success", "pursue_answer(..) == Some(new answer)")
+        _gs(ck, R, nb, succ, e2, "Success", "pop_and_take_caller_strand() == Some(caller)")
     R = "C03.NO-DUP"
     ck.rule(R, "K4+K3: Table.answers is mutated only in Table::push_answer (push) / mark_floundered (reset) / new; in push_answer the push "
                "happens only when `answers_hash.entry(answer.subst)` was vacant; the hash key is the whole Canonical<AnswerSubst>; "
